@@ -106,6 +106,7 @@ def run_shard(prop_id, sub_name, tier, seed, shard, n_examples, budget_s, shrink
         import numpy as np
 
         np.seterr(all="ignore")
+        sys.stdout = open(os.devnull, "w")  # kafe2 prints warnings with print(); results travel through the return value
         _check_repo()
         scratch = os.path.join(HOME, ".scratch", f"{prop_id}-{sub_name}-{shard}-{os.getpid()}")
         os.makedirs(scratch, exist_ok=True)
